@@ -27,15 +27,19 @@ from harness.lib import pipegen as pg
 DETAILS = ["hash", "repr", "context", "all"]
 MODES = ["file", "directory"]
 VOLATILE_TOP = ("run_id", "timestamp", "seq")
-BASE_ONLY = ("KeyboardInterrupt", "SystemExit", "GeneratorExit")
+BASE_ONLY = ("KeyboardInterrupt", "SystemExit", "GeneratorExit", "VerifAbort")
 
 
 # ----- descriptors: pipegen's plus an interrupting operation and a sweep over YAML dates ---------------
 def node_impl(n):
     k = n["k"]
     if k == "interrupt":
-        from harness.lib.components import VerifInterruptOperation
-        return {"processor": VerifInterruptOperation}
+        from harness.lib import components as _c
+        return {"processor": {"KeyboardInterrupt": _c.VerifInterruptOperation, "SystemExit": _c.VerifSystemExitOperation,
+                              "VerifAbort": _c.VerifCustomAbortOperation}[n.get("exc", "KeyboardInterrupt")]}
+    if k in ("streamsrc", "streamsum", "sumitems"):
+        from harness.lib import components as _c
+        return {"processor": {"streamsrc": _c.VerifStreamSource, "streamsum": _c.VerifStreamSum, "sumitems": _c.VerifSumItems}[k]}
     if k == "datesweep":
         # what yaml.safe_load gives for `variables: {t: [2020-01-01, 2020-01-02]}`
         vals = [_dt.date(2020, 1, 1 + i) for i in range(n["n"])]
@@ -47,8 +51,10 @@ def node_impl(n):
 
 def node_coq(n):
     k = n["k"]
+    if k in ("streamsrc", "streamsum", "sumitems"):
+        raise pg.Unsupported("one-shot iterator component (direct oracle only)")
     if k == "interrupt":
-        return "(mkNode lib_interrupt [] None)"
+        return "(mkNode (lib_abort %s) [] None)" % pg.cq_str(n.get("exc", "KeyboardInterrupt"))
     if k == "datesweep":
         # the element values do not depend on t: the model only needs the number of steps
         return pg.node_coq({"k": "sweep", "elem": "src", "vars": [("t", ("seq", list(range(n["n"]))))],
@@ -66,7 +72,7 @@ def node_meta(n):
 
 
 def node_repr(n):
-    if n["k"] in ("interrupt", "datesweep"):
+    if n["k"] in ("interrupt", "datesweep", "streamsrc", "streamsum", "sumitems"):
         c = node_impl(n)
         c = json.loads(json.dumps(c, default=lambda o: getattr(o, "__name__", None) or str(o)))
         return c
@@ -475,7 +481,13 @@ def skeleton(r):
                            cls(cdig, summ["pre_context"]["sha256"]), cls(cdig, summ["post_context"]["sha256"]))
                 except KeyError:
                     dig = None
-            err = rec.get("error") or {}
+            err = dict(rec.get("error") or {})
+            k_ser = sum(1 for x in r.records[:r.records.index(rec)] if x.get("record_type") == "ser")
+            le = r.log.entries[k_ser] if k_ser < len(r.log.entries) else None
+            if le is not None and le["exc"] is not None and err.get("type") == type(le["exc"]).__name__:
+                # third-party subclasses (numpy's UFuncTypeError ...) are canonicalised to their builtin base,
+                # exactly as the outcome's error class is (pg.exc_class); C07's direct oracle compares the raw name
+                err["type"] = pg.exc_class(le["exc"])
             cd = rec.get("context_delta", {})
             out.append("(OSer %s %s (mkOSer %s %s %s %s %s %s %s %s %s %s %s %s %s))" % (
                 cq_nat(cls(pids, idn.get("pipeline_id"))), cq_nat(cls(runs, idn.get("run_id"))),
@@ -509,7 +521,8 @@ def rfc3339_to_epoch(s):
 
 # ----- cases: generated pipeline x failure point x failure kind ------------------------------------------------
 KINDS = ["none", "processor-exception", "unresolvable-parameter", "type-gate", "undeclared-write",
-         "unknown-parameter-at-construction", "probe-without-key-at-construction", "keyboard-interrupt"]
+         "unknown-parameter-at-construction", "probe-without-key-at-construction", "keyboard-interrupt",
+         "system-exit", "custom-base-exception"]
 
 
 def out_dtype(node_obj):
@@ -536,6 +549,10 @@ def inject(nodes, i, kind, types, ctxs):
         new = {"k": "failing"} if t == "F" else None
     elif kind == "keyboard-interrupt":
         new = {"k": "interrupt"} if t == "F" else None
+    elif kind == "system-exit":
+        new = {"k": "interrupt", "exc": "SystemExit"} if t == "F" else None
+    elif kind == "custom-base-exception":
+        new = {"k": "interrupt", "exc": "VerifAbort"} if t == "F" else None
     elif kind == "undeclared-write":
         new = {"k": "badwrite", "key": "j"} if t == "F" else None
     elif kind == "unresolvable-parameter":
@@ -578,6 +595,26 @@ def tnode_coq(n, out_t):
     return "(mkT %s %s %s)" % (node_coq(n), node_meta(n), out_t)
 
 
+def _has_negzero(v, depth=0):
+    import math
+    if isinstance(v, float):
+        return v == 0.0 and math.copysign(1.0, v) < 0
+    if depth < 4 and isinstance(v, (list, tuple)):
+        return any(_has_negzero(x, depth + 1) for x in v)
+    if depth < 4 and hasattr(v, "data") and not isinstance(v, (str, bytes)):
+        try:
+            return _has_negzero(v.data, depth + 1)
+        except Exception:
+            return False
+    try:
+        import numpy as np
+        if isinstance(v, np.floating):
+            return float(v) == 0.0 and math.copysign(1.0, float(v)) < 0
+    except Exception:
+        pass
+    return False
+
+
 def case_coq(nodes, data0, ctx0, r, prior=False, pid_same=True):
     """Gallina `tcase` of a traced run r (raises pg.Unsupported for values outside the model)"""
     last = r.log.entries[-1] if r.log.entries else None
@@ -585,6 +622,10 @@ def case_coq(nodes, data0, ctx0, r, prior=False, pid_same=True):
         # Model/Pipeline.v's exec_node has no partial effects on failure; the SER of such a node is still checked
         # against the real context difference by the direct oracle of C07
         raise pg.Unsupported("failing node changed the context before raising")
+    for e in r.log.entries:
+        if _has_negzero(getattr(e["data_post"], "data", e["data_post"])) or _has_negzero(list((e["ctx_post"] or {}).values())):
+            # the model's numbers are integers: it has no -0.0, whose repr (hence digest) differs from that of 0.0
+            raise pg.Unsupported("negative zero in an intermediate value")
     objs = list(getattr(r.pipe, "nodes", []) or [])
     orch = getattr(r.pipe, "orchestrator", None)
     last = list(getattr(orch, "last_nodes", []) or []) if orch is not None else []
